@@ -8,6 +8,7 @@ import UPVerif.Core.Compile.Invariant
 import UPVerif.Core.Compile.DCR
 import UPVerif.Core.Compile.QR
 import UPVerif.Core.Compile.Grounder
+import UPVerif.Core.Compile.Hyps
 /-!
 Line-protocol handler shared by C06 and C07: runs the executable model of a compiler on one case
 
@@ -16,6 +17,11 @@ Line-protocol handler shared by C06 and C07: runs the executable model of a comp
 and answers the compiled problem in the canonical view of `harness/complib.py:variants`
 
   (compiled (variants (variant <origin|_> ((p ty)…) (pre e…sorted) (effs eff…))…sorted) (goals e…sorted) (traj e…sorted))
+
+For `btr` and `qr` a last element `(hyps tag…)` reports which DECIDABLE hypotheses of the theorems of
+Props/C06BTQR.lean / C07BTQR.lean hold on this problem (`Core/Compile/Hyps.lean`; ignored by the comparison, counted
+in the evidence): `params-free | has-params`, `btr-hyps-ok | btr-fails:<clause>…`, `qr-hyps-ok | qr-fails:<clause>…`,
+`qr-typed-ok | qr-not-typed:<clause>…`.
 
 `(raised)` when the model says the real compiler raises, `(not-modelled)` for the compilers of the
 statements that have no Lean model (end-to-end differential only), `bad-case` for anything else.
@@ -84,6 +90,18 @@ def handleGrounder (P : Problem) : Sexp :=
       .list (.atom "traj" :: sortSexps (c1.prob.traj.map exprToSexp)),
       .list (.atom "init" :: initSexp c1.prob)]
   | _, _ => .list [.atom "raised"]
+def tagsOf (okTag failPrefix : String) (cl : List (String × Bool)) : List String :=
+  match failing cl with
+  | [] => [okTag]
+  | l => l.map (fun n => failPrefix ++ n)
+
+/-- the compiled problem followed by the verdicts of the theorems' decidable hypotheses -/
+def withHyps (s : Sexp) (tags : List String) : Sexp :=
+  match s with
+  | .list items => .list (items ++ [.list (.atom "hyps" :: tags.map .atom)])
+  | x => x
+
+def paramsTag (P : Problem) : String := if paramsFree P then "params-free" else "has-params"
 
 def notModelled : List String :=
   ["ncr", "utf", "tcr", "uin",
@@ -106,7 +124,7 @@ def handle : Sexp → Sexp
       else if comp == "btr" then
         match btrCompile simp P with
         | none => .list [.atom "raised"]
-        | some c => compiledSexp P c
+        | some c => withHyps (compiledSexp P c) (paramsTag P :: tagsOf "btr-hyps-ok" "btr-fails:" (btrClauses simp P c))
       else if comp == "dcr" then
         match dcrCompile simp (Expr.dnf simp) P with
         | none => .list [.atom "raised"]
@@ -114,7 +132,8 @@ def handle : Sexp → Sexp
       else if comp == "qr" then
         match qrCompile simp P with
         | none => .list [.atom "raised"]
-        | some c => compiledSexp P c
+        | some c => withHyps (compiledSexp P c) (paramsTag P :: tagsOf "qr-hyps-ok" "qr-fails:" (qrClauses P c) ++
+            tagsOf "qr-typed-ok" "qr-not-typed:" (typedClauses P))
       else if comp == "grounder" then handleGrounder P
       else if notModelled.contains comp then .list [.atom "not-modelled"]
       else .atom "bad-case"
